@@ -280,6 +280,19 @@ func (c *Check) ruleTruncationKeepsForkPoint(rule string) {
 				}
 				k, isC := linOfValue(sl.High).minus(linOfValue(idx)).isConst()
 				if !isC {
+					// the index handed out of a search (`found index or -1`): the join of the loop index and -1
+					hl := linOfValue(sl.High)
+					if len(hl.terms) == 1 {
+						for t, cf := range hl.terms {
+							if fi := foundIndexOf(hl.atoms[t]); cf == 1 && fi != nil {
+								if d, ok := linOfValue(fi).minus(linOfValue(idx)).isConst(); ok {
+									k, isC = hl.k+d, true
+								}
+							}
+						}
+					}
+				}
+				if !isC {
 					continue
 				}
 				n++
@@ -494,4 +507,43 @@ func (c *Check) ruleParentFetchedPerInput(rule string) {
 		}
 	}
 	c.Min(rule, "reads of a stored parent's outputs in fetchSpentOutputs", n, 1)
+}
+
+// foundIndexOf: v is the result of a search that answers "index of the match or -1": a join whose inputs
+// are the constant -1 and one other value; returns that value.
+func foundIndexOf(v ssa.Value) ssa.Value {
+	phi, ok := stripConv(v).(*ssa.Phi)
+	if !ok {
+		return nil
+	}
+	var other ssa.Value
+	seen := map[ssa.Value]bool{}
+	var walk func(p *ssa.Phi) bool
+	walk = func(p *ssa.Phi) bool {
+		if seen[p] {
+			return true
+		}
+		seen[p] = true
+		for _, e := range p.Edges {
+			if k, isC := constInt(e); isC && k == -1 {
+				continue
+			}
+			if p2, ok := e.(*ssa.Phi); ok && loopBody(p2.Block()) == nil {
+				// a plain join forwards values; a loop variable (header phi) is a value of its own
+				if !walk(p2) {
+					return false
+				}
+				continue
+			}
+			if other != nil && other != e {
+				return false
+			}
+			other = e
+		}
+		return true
+	}
+	if !walk(phi) {
+		return nil
+	}
+	return other
 }
